@@ -142,4 +142,18 @@ func codecFromParamBytes(h *history, kind int, p int64) string {
 	return "?"
 }
 
-func sameCodecString(a, b string) bool { return strings.EqualFold(a, b) }
+// Equal as RFC 6381 strings: hexadecimal digits in either case; for hvc1, "trailing bytes that are zero may be
+// omitted" (ISO/IEC 14496-15 E.3), so constraint bytes that are zero at the end do not count - an empty component
+// (a dangling period) is not a byte and is never dropped.
+func sameCodecString(a, b string) bool { return strings.EqualFold(normHvc1(a), normHvc1(b)) }
+
+func normHvc1(s string) string {
+	f := strings.Split(s, ".")
+	if len(f) < 4 || !(strings.EqualFold(f[0], "hvc1") || strings.EqualFold(f[0], "hev1")) {
+		return s
+	}
+	for len(f) > 4 && (f[len(f)-1] == "0" || f[len(f)-1] == "00") {
+		f = f[:len(f)-1]
+	}
+	return strings.Join(f, ".")
+}
